@@ -135,6 +135,40 @@ def f(self, a, b):
 ]
 
 DIFFERENT = [
+    ("arithmetic on an array named before / after the array is changed in place (found by wave 8, C12-15)", """
+def f(self, axis):
+    d = np.atleast_1d(self.a.sum(axis=axis))
+    d[d == 0] = 1
+    self.a /= d
+    self.e /= d * d
+    return self
+""", """
+def f(self, axis):
+    d = np.atleast_1d(self.a.sum(axis=axis))
+    d2 = d * d
+    d[d == 0] = 1
+    self.a /= d
+    self.e /= d2
+    return self
+"""),
+    ("the same through an alias of the array", """
+def f(self, axis):
+    d = np.atleast_1d(self.a.sum(axis=axis))
+    t = d
+    t[t == 0] = 1
+    self.a /= d
+    self.e /= d * d
+    return self
+""", """
+def f(self, axis):
+    d = np.atleast_1d(self.a.sum(axis=axis))
+    d2 = d * d
+    t = d
+    t[t == 0] = 1
+    self.a /= d
+    self.e /= d2
+    return self
+"""),
     ("keyword order of two calls", """
 def f(self, a):
     return self.h(x=self.g(a), y=self.k(a))
@@ -465,6 +499,24 @@ def main():
         if fp_module(a) == fp_module(b):
             bad += 1
             print(f"FAIL (UNSOUND after helper inlining): {name}")
+    # new special methods and new functions nothing calls are never treated as helpers to be inlined away (found by wave 8, C14-15)
+    from sa.inline import inline_new_helpers
+    t = ast.parse(textwrap.dedent("""
+class A:
+    def f(self):
+        return self.w
+
+    def __bool__(self):
+        return self.w != 0
+
+    def extra(self):
+        return 1
+"""))
+    inline_new_helpers(t, {"A.f", "A"})
+    kept = {n.name for n in ast.walk(t) if isinstance(n, ast.FunctionDef)}
+    if kept != {"f", "__bool__", "extra"}:
+        bad += 1
+        print(f"FAIL (UNSOUND - definitions dropped by the helper inliner): {sorted({'f', '__bool__', 'extra'} - kept)}")
     print(f"fingerprint cases: {len(SAME) + len(MODULE_SAME)} equal pairs, {len(DIFFERENT) + len(MODULE_DIFFERENT)} different pairs, {bad} failures")
     return 1 if bad else 0
 
